@@ -105,6 +105,20 @@ class AStream(object):
         return '<stream %s>' % self.name
 
 
+class ASet(object):
+    """A mutable set created by the code under analysis (set() / set(iterable)); elements are concrete."""
+
+    def __init__(self, items=()):
+        self.id = next(_ids)
+        self.items = []
+        for x in items:
+            if x not in self.items:
+                self.items.append(x)
+
+    def __repr__(self):
+        return '<set %r>' % (self.items,)
+
+
 class AIter(object):
     """An iterator over a definite sequence of abstract values (iter() of a known tuple/list/section)."""
 
